@@ -158,6 +158,9 @@ class Pipeline(Instance):
             e.witness("preempted")
         if self.view in ("roundtrip", "all"):
             self.read_back(e)
+        if self.view == "term":
+            # every queued contig was compressed: the archive lists every pushed sample and contig (read back through the real reader)
+            self.read_back(e)
         return {"file": self.file_bytes(e)}
 
     def path_determinism(self, e):
@@ -176,6 +179,7 @@ class Pipeline(Instance):
     def path_fault(self, e):
         ref = self.canonical(e, self.threads)
         N = len(ref)
+        e.inputs["N"] = N
         phi = e.choose(N + 1, "phi")           # bytes that can be written before the device fails; N = no fault (vacuity witness)
         comp = self.build(e, sched=False)
         e.fs.fault_at = phi if phi < N else None
@@ -197,13 +201,17 @@ class Pipeline(Instance):
     def classify_panic(self, e, ex):
         return f"pipe:panic:{ex.where.split('::')[-1]}:{ex.kind}", str(ex)
 
-    def native(self, inp):
-        return "pipeline", {"threads": self.threads, "k": self.k, "splitters": [str(kmer_canon(w)) for w in self.splitters], "driver": self.driver, "qcap": self.qcap,
-                            "cfg": {n: (v.v if hasattr(v, "v") else v) for n, v in self.cfg.items()},
-                            "samples": [[sn.decode(), [[cn.decode(), list(d)] for cn, d in cs]] for sn, cs in self.samples], "runs": 40}
-
     def confirm(self, viol, outs):
         return any(("panic" in o or "crash" in o or o.get("ok") is False or o.get("timeout")) for o in outs.values())
+
+    def native(self, inp):
+        case = {"threads": self.threads, "k": self.k, "splitters": [str(kmer_canon(w)) for w in self.splitters], "driver": self.driver, "qcap": self.qcap,
+                "cfg": {n: (v.v if hasattr(v, "v") else v) for n, v in self.cfg.items()},
+                "samples": [[sn.decode(), [[cn.decode(), list(d)] for cn, d in cs]] for sn, cs in self.samples], "runs": 12 if self.view != "fault" else 0}
+        if self.view == "fault":
+            f = min(inp.get("phi", 0) / max(inp.get("N", 1), 1), 0.999)
+            case["fault_fractions"] = sorted({round(x, 4) for x in (f, max(f - 0.02, 0.0), min(f + 0.02, 0.999), 0.0, 0.25, 0.5, 0.75, 0.9, 0.97)})
+        return "pipeline", case
 
     def concrete_cases(self, rnd):
         return []
